@@ -66,6 +66,8 @@ class Gen(object):
         self.nodes_left = 0
         self.tvars_in_scope = []
         self.inst_seen = {}
+        self.bound_labels = set()
+        self.strict_params = {}
         self.allow_hazard = bool(self.opts.get("allow_hazard", False))
         self.abortiness = self.opts.get("abortiness", 1.0)
 
@@ -358,7 +360,14 @@ class Gen(object):
                 used = set(b for b, _t in binds)
                 for j, (i, sp) in enumerate(fields):
                     label = ctor.fields[i][0]
+                    if label in self.bound_labels:
+                        # re-binding a name that is visible elsewhere in the function: FINDINGS.md F4
+                        # (a clause pattern shadowing a variable used by a sibling clause crashes the compiler)
+                        if not self.opts.get("include_known"):
+                            continue
+                        self.feat("known:F4_clause_shadowing")
                     if sp.K == "PVar" and label not in used:
+                        self.bound_labels.add(label)
                         for bi, (bn, bt) in enumerate(binds):
                             if bn == sp.name:
                                 binds[bi] = (label, bt)
@@ -432,12 +441,16 @@ class Gen(object):
                 clauses.append(([p], binds))
                 rows.append([pats.W])
                 break
+            added = False
             for p in r.shuffle(tops):
                 np = [pats.norm(p, self.adt_tab)]
-                if pats.useful(rows, np):
+                if pats.useful(rows, np) and not self.known_hazard(clauses, p):
                     clauses.append(([p], []))
                     rows.append(np)
+                    added = True
                     break
+            if not added:
+                guard = 100
         return clauses
 
     def known_hazard(self, clauses, p):
@@ -525,6 +538,9 @@ class Gen(object):
             if vs:
                 n, t, _h = r.pick(vs)
                 return G.Var(n, t)
+            for n, t, _h in sc.visible():
+                if t[0] == "Fn" and t[2] == ty and all(sc.of_type(a) for a in t[1]):
+                    return G.Call(G.Var(n, t), [G.Var(sc.of_type(a)[0][0], a) for a in t[1]], "plain", ty)
             self.feat("fail")
             return G.Fail(None, ty)
         if self.has_tvar(ty):
@@ -559,7 +575,7 @@ class Gen(object):
         c.append((4 if k in ("Int", "Bool", "Bytes") else 8, lambda: self.construct(ty, sc, d)))
         c.append((3, lambda: self.gen_if(ty, sc, d)))
         c.append((5, lambda: self.gen_when(ty, sc, d)))
-        c.append((4, lambda: self.gen_let(ty, sc, d)))
+        c.append((5, lambda: self.gen_let(ty, sc, d)))
         c.append((2, lambda: self.gen_expect(ty, sc, d)))
         calls = self.call_candidates(ty, sc)
         if calls:
@@ -575,7 +591,7 @@ class Gen(object):
         bp = self.backpass_candidates(ty, sc)
         if bp:
             c.append((2, lambda: self.gen_backpass(ty, sc, d, bp)))
-        if self.abortiness > 0 and r.chance(1, 3):
+        if self.abortiness > 0 and r.chance(1, 5):
             c.append((1, lambda: self.gen_fail(ty)))
         c.append((1, lambda: self.gen_trace(ty, sc, d)))
         if k == "Int":
@@ -635,6 +651,9 @@ class Gen(object):
                 which = sorted(r.shuffle(list(range(len(fts))))[:nupd])
                 ups = [(decl.ctors[i].fields[j][0], j, self.expr(fts[j], sc, d - 1)) for j in which]
                 self.feat("record:update")
+                if base.K != "Var":
+                    v = self.fresh("v")
+                    return G.Let(G.PVar(v, ty), ty, base, G.RecUpd(ty[1], i, G.Var(v, ty), ups, ty), ty)
                 return G.RecUpd(ty[1], i, base, ups, ty)
             self.feat("adt:construct")
             if decl.tparams:
@@ -716,6 +735,18 @@ class Gen(object):
         out = []
         for alts, binds in clauses:
             out.append((alts, self.expr(ty, sc.extend(binds), d - 1)))
+        if A.may_abort(subj) and not A.binding_forced(out[0][0][0], out[0][1]):
+            # the subject would only be needed lazily (FINDINGS.md F1): match on something that cannot abort
+            if self.allow_hazard:
+                self.feat("hazard:lazy_when_subject")
+            else:
+                vs = sc.of_type(subj.ty)
+                if vs:
+                    subj = G.Var(vs[0][0], subj.ty)
+                elif not self.has_tvar(subj.ty) and not self.contains_data(subj.ty) and not G.has_fn(subj.ty):
+                    subj = self.lit_of(self.gen_value(subj.ty, 2), subj.ty)
+                else:
+                    return out[-1][1] if not any(A.occurs(n, out[-1][1]) for n, _t in clauses[-1][1]) else self.leaf(ty, sc)
         self.feat("when")
         self.feat("when:" + subj.ty[0])
         if len(out) > 1:
@@ -776,7 +807,9 @@ class Gen(object):
                     if ok:
                         self.feat("let:destructure")
                         return G.Let(pat, None, rhs, body, ty)
-                    return body
+                    if not used:
+                        return body
+                    return self.expr(ty, sc, d - 1)
         vty = self.gen_type(2, False) if r.chance(3, 4) else TFn([self.gen_type(1, False)], self.gen_type(1, False))
         rhs = self.expr(vty, sc, d - 1)
         name = self.var_name(sc)
@@ -839,9 +872,9 @@ class Gen(object):
             pat = self.gen_pattern(subj.ty, 2, binds, True, top=True)
             if pat.K in ("PVar", "PWild"):
                 continue
+            if pats.irrefutable(pat, self.adt_tab):
+                continue
             self.feat("expect:pattern")
-            if not pats.irrefutable(pat, self.adt_tab):
-                self.feat("expect:refutable")
             return G.Expect(pat, None, subj, self.expr(ty, sc.extend(binds), d - 1), ty)
         return self.expr(ty, sc, d - 1)
 
@@ -894,7 +927,14 @@ class Gen(object):
             return G.Bin(op, self.expr(t, sc, d - 1), self.expr(t, sc, d - 1), BOOL)
         if ch == "and":
             self.feat("op:&&")
-            return G.Bin("&&", self.expr(BOOL, sc, d - 1), self.expr(BOOL, sc, d - 1), BOOL)
+            l, rr = self.expr(BOOL, sc, d - 1), self.expr(BOOL, sc, d - 1)
+            if rr.K == "Lit" and rr.val is False and A.may_abort(l):
+                # FINDINGS.md F6: `x && False` is rewritten to False without evaluating x
+                if self.opts.get("include_known"):
+                    self.feat("known:F6_and_false")
+                else:
+                    rr = G.Lit(True, None, BOOL)
+            return G.Bin("&&", l, rr, BOOL)
         if ch == "or":
             self.feat("op:||")
             return G.Bin("||", self.expr(BOOL, sc, d - 1), self.expr(BOOL, sc, d - 1), BOOL)
@@ -904,7 +944,12 @@ class Gen(object):
         if ch == "chain":
             kind = r.pick(["and", "or"])
             self.feat("chain:" + kind)
-            return G.Chain(kind, [self.expr(BOOL, sc, d - 1) for _ in range(r.range(2, 3))], BOOL)
+            es = [self.expr(BOOL, sc, d - 1) for _ in range(r.range(2, 3))]
+            if kind == "and" and not self.opts.get("include_known"):
+                for i in range(1, len(es)):
+                    if es[i].K == "Lit" and es[i].val is False and any(A.may_abort(x) for x in es[:i]):
+                        es[i] = G.Lit(True, None, BOOL)
+            return G.Chain(kind, es, BOOL)
         self.feat("trace_if_false")
         return G.TraceIfFalse(self.expr(BOOL, sc, d - 1), BOOL)
 
@@ -939,6 +984,14 @@ class Gen(object):
             return G.Builtin(name, [self.expr(TList(self.gen_type(1, True)), sc, d - 1)], BOOL)
         if name == "integer_to_bytearray":
             return G.Builtin(name, [self.expr(BOOL, sc, d - 1), G.Lit(r.pick([0, 0, 1, 2, 4, 8, 32]), "dec", INT), self.expr(INT, sc, d - 1)], BYTES)
+        if name in ("un_i_data", "un_b_data"):
+            # FINDINGS.md F3: `i_data(un_i_data(x))` is rewritten to `x` (the abort on a non-integer is lost).
+            # By default only un-wrap Data that certainly has the right shape.
+            if self.opts.get("include_known") and r.chance(1, 2):
+                self.feat("known:F3_cast_cancel")
+                return G.Builtin(name, [self.expr(DATA, sc, d - 1)], ty)
+            inner = G.Builtin("i_data" if name == "un_i_data" else "b_data", [self.expr(ty, sc, d - 1)], DATA)
+            return G.Builtin(name, [inner], ty)
         if name == "replicate_byte":
             return G.Builtin(name, [G.Lit(r.pick([0, 1, 2, 3, 5, -1]), "dec", INT), self.expr(INT, sc, d - 1)], BYTES)
         return G.Builtin(name, [self.expr(t, sc, d - 1) for t in ats], ty)
@@ -974,6 +1027,13 @@ class Gen(object):
         s = self.inst_free(f, s)
         pts = [G.subst(t, s) for _n, t in f.params]
         args = [self.expr(t, sc, d - 1) for t in pts]
+        if not self.allow_hazard:
+            # FINDINGS.md F1b: an argument that may abort, passed for a parameter the callee only uses lazily,
+            # is not evaluated when the callee gets inlined
+            sp = self.strict_params.get(f.name)
+            for i, a in enumerate(args):
+                if (sp is None or not sp[i]) and A.may_abort(a):
+                    args[i] = self.leaf_total(pts[i], sc)
         style = "plain"
         if args and r.chance(1, 4):
             style = "pipe"
@@ -1234,7 +1294,7 @@ class Gen(object):
                 break
             else:
                 t = INT
-            name = "k%d" % (len(self.consts) + 1)
+            name = "const_%d" % (len(self.consts) + 1)
             self.feat("const")
             self.feat("const:" + t[0])
             e = self.total_expr(t, 2)
@@ -1256,6 +1316,7 @@ class Gen(object):
         return False
 
     def body_budget(self):
+        self.bound_labels = set()  # called once at the start of every function body
         return 10 + self.size * 7 + self.rng.below(10 + self.size * 5)
 
     def body_depth(self):
@@ -1268,7 +1329,7 @@ class Gen(object):
     # -- plain helper ---------------------------------------------------------
     def gen_plain_fn(self):
         r = self.rng
-        name = "f%d" % (len(self.fns) + 1)
+        name = "plain_%d" % (len(self.fns) + 1)
         params = []
         for _ in range(r.range(1, 3)):
             params.append((self.fresh("x"), self.gen_type(2, False)))
@@ -1286,11 +1347,12 @@ class Gen(object):
     def add_fn(self, f):
         self.fns.append(f)
         self.callable.append(f)
+        self.strict_params[f.name] = [A.strict_occ(n, f.body) for n, _t in f.params]
 
     # -- generic helper ---------------------------------------------------------
     def gen_generic_fn(self):
         r = self.rng
-        name = "g%d" % (len(self.fns) + 1)
+        name = "poly_%d" % (len(self.fns) + 1)
         a, b = TVar("a"), TVar("b")
         two = r.chance(1, 2)
         shapes_a = [a, TList(a), TOption(a), TTuple(a, INT), TList(a)]
@@ -1298,14 +1360,17 @@ class Gen(object):
             if len(d.tparams) == 1:
                 shapes_a.append(TAdt(d.name, a))
         params = [(self.fresh("x"), r.pick(shapes_a))]
-        if r.chance(1, 2):
-            params.append((self.fresh("x"), r.pick([a, INT, BOOL, TList(a)])))
+        if params[0][1] != a or r.chance(1, 3):
+            params.append((self.fresh("x"), a))
+        if r.chance(1, 3):
+            params.append((self.fresh("x"), r.pick([INT, BOOL, TList(a)])))
         if two:
             fn_shapes = [TFn([a], b), TFn([a, b], b)]
             val_shapes = [b]
-            if r.chance(1, 2):
+            kf = r.pick(fn_shapes)
+            if r.chance(1, 2) or len(kf[1]) == 2:
                 params.append((self.fresh("x"), r.pick(val_shapes)))
-            params.append((self.fresh("k"), r.pick(fn_shapes)))
+            params.append((self.fresh("k"), kf))
             rets = [b, TList(b), TOption(b), TTuple(a, b), b]
         else:
             if r.chance(1, 2):
@@ -1360,7 +1425,7 @@ class Gen(object):
 
     def gen_rec_list_fn(self, generic=False):
         r = self.rng
-        name = "r%d" % (len(self.fns) + 1)
+        name = "rec_%d" % (len(self.fns) + 1)
         et = TVar("a") if generic else self.gen_type(1, True)
         lt = TList(et)
         xs = self.fresh("xs")
@@ -1400,7 +1465,7 @@ class Gen(object):
 
     def gen_rec_int_fn(self):
         r = self.rng
-        name = "r%d" % (len(self.fns) + 1)
+        name = "rec_%d" % (len(self.fns) + 1)
         n = self.fresh("n")
         ex = self.extras()
         ret = self.gen_type(1, False)
@@ -1431,7 +1496,7 @@ class Gen(object):
         if not recs:
             return self.gen_rec_list_fn()
         a = r.pick(recs)
-        name = "r%d" % (len(self.fns) + 1)
+        name = "rec_%d" % (len(self.fns) + 1)
         ty = TAdt(a.name, *[self.gen_type(0, True) for _ in a.tparams])
         t = self.fresh("t")
         ex = self.extras()
@@ -1460,8 +1525,8 @@ class Gen(object):
 
     def gen_mutual_fns(self):
         r = self.rng
-        n1 = "m%d" % (len(self.fns) + 1)
-        n2 = "m%d" % (len(self.fns) + 2)
+        n1 = "mut_%d" % (len(self.fns) + 1)
+        n2 = "mut_%d" % (len(self.fns) + 2)
         et = self.gen_type(1, True)
         lt = TList(et)
         ret = self.gen_type(1, False)
@@ -1512,6 +1577,7 @@ class Gen(object):
     def generate(self):
         r = self.rng
         self.gen_adts()
+        A.set_adts(self.adt_tab)
         self.build_pool()
         self.gen_consts()
         nf = max(1, self.size - 1 + r.below(self.size + 1))
